@@ -103,6 +103,14 @@ def load_inventory() -> Optional[Set[str]]:
         return None
 
 
+def load_templates() -> Dict[str, dict]:
+    try:
+        with open(INVENTORY) as fh:
+            return json.load(fh).get("templates", {})
+    except (OSError, ValueError):
+        return {}
+
+
 def module_globals(modname: str, tree: ast.Module) -> List[str]:
     out = []
     for st in tree.body:
@@ -1086,6 +1094,130 @@ class ModuleInliner:
         for nm in cand:
             self.log.append(f"constant {self.modname}:{nm} written out")
 
+    # -- re-creating trivial helpers that were inlined away ------------------------------------------------------
+    @staticmethod
+    def _tmatch(pat, node, params, binds) -> bool:
+        """structural match of `node` against the template `pat`; Names of the template that are parameters are metavariables"""
+        if isinstance(pat, ast.Name) and pat.id in params:
+            if isinstance(node, ast.AST) and not isinstance(node, (ast.stmt, ast.expr_context)):
+                prev = binds.get(pat.id)
+                if prev is None:
+                    binds[pat.id] = node
+                    return True
+                return ast.dump(prev) == ast.dump(node)
+            return False
+        if type(pat) is not type(node):
+            return False
+        if isinstance(pat, ast.AST):
+            for f in pat._fields:
+                if f in ("ctx", "type_comment", "kind"):
+                    continue
+                a, b = getattr(pat, f, None), getattr(node, f, None)
+                if isinstance(a, list):
+                    if not isinstance(b, list) or len(a) != len(b) or not all(ModuleInliner._tmatch(x, y, params, binds) for x, y in zip(a, b)):
+                        return False
+                elif isinstance(a, ast.AST):
+                    if not isinstance(b, ast.AST) or not ModuleInliner._tmatch(a, b, params, binds):
+                        return False
+                elif a != b:
+                    return False
+            return True
+        return pat == node
+
+    def _outline_vanished(self, templates: Dict[str, dict]):
+        """A private one-statement helper of the reference tree that no longer exists because its body was written out at the call sites ("inline function")
+        is re-created, and the statements / expressions that are instances of its body become calls again - so that the rules anchored at it keep their anchor."""
+        have = {d.qual for d in self.defs}
+        for qual, t in templates.items():
+            if not qual.startswith(self.modname + ":") or qual in have:
+                continue
+            try:
+                fdef = ast.parse(t["src"]).body[0]
+            except (SyntaxError, IndexError, KeyError):
+                continue
+            body = [x for x in fdef.body if not (isinstance(x, ast.Expr) and isinstance(x.value, ast.Constant) and isinstance(x.value.value, str))]
+            if len(body) != 1:
+                continue
+            st = body[0]
+            params = [a.arg for a in fdef.args.args]
+            cls_name = t.get("class")
+            is_method = cls_name is not None
+            # the class must still exist here
+            container = self.tree.body
+            if is_method:
+                cls = [c for c in self.tree.body if isinstance(c, ast.ClassDef) and c.name == cls_name]
+                if not cls:
+                    continue
+                container = cls[0].body
+            name = fdef.name
+            if any(isinstance(n, (ast.FunctionDef, ast.AsyncFunctionDef)) and n.name == name for n in container):
+                continue
+            count = 0
+            outer = self
+
+            def mk_call(binds, at):
+                if is_method:
+                    recv = binds.get(params[0])
+                    if recv is None:
+                        return None
+                    args = [binds.get(p) for p in params[1:]]
+                    fn = ast.Attribute(value=copy.deepcopy(recv), attr=name, ctx=ast.Load())
+                else:
+                    args = [binds.get(p) for p in params]
+                    fn = ast.Name(id=name, ctx=ast.Load())
+                if any(a is None for a in args):
+                    return None
+                c = ast.Call(func=fn, args=[copy.deepcopy(a) for a in args], keywords=[])
+                for x in ast.walk(c):
+                    if not hasattr(x, "lineno"):
+                        ast.copy_location(x, at)
+                return ast.copy_location(c, at)
+
+            skip_funcs = set(t.get("base_instances", []))
+            mods = list(self.pkg.values()) if is_method else [self]
+            for m in mods:
+                # statements of functions that already spelled the body out on the reference tree stay as they are
+                protected = set()
+                for d in m.defs:
+                    if d.qual in skip_funcs:
+                        protected |= {id(x) for x in ast.walk(d.node)}
+                if isinstance(st, ast.Return) and st.value is not None:
+                    pat = st.value
+
+                    class T(ast.NodeTransformer):
+                        def generic_visit(self, node):
+                            node = super().generic_visit(node)
+                            nonlocal count
+                            if isinstance(node, ast.expr) and type(node) is type(pat) and id(node) not in protected:
+                                b = {}
+                                if ModuleInliner._tmatch(pat, node, set(params), b):
+                                    c = mk_call(b, node)
+                                    if c is not None:
+                                        count += 1
+                                        return c
+                            return node
+                    m.tree = T().visit(m.tree)
+                elif isinstance(st, (ast.Assign, ast.Expr)):
+                    for n in ast.walk(m.tree):
+                        for fld in ("body", "orelse", "finalbody"):
+                            blk = getattr(n, fld, None)
+                            if isinstance(blk, list):
+                                for i, s2 in enumerate(blk):
+                                    if type(s2) is type(st) and id(s2) not in protected:
+                                        b = {}
+                                        if ModuleInliner._tmatch(st, s2, set(params), b):
+                                            c = mk_call(b, s2)
+                                            if c is not None:
+                                                blk[i] = ast.copy_location(ast.Expr(value=c), s2)
+                                                count += 1
+            if count:
+                ast.fix_missing_locations(fdef)
+                container.append(fdef)
+                self.log.append(f"re-created {qual} from {count} written-out instance(s) of its body")
+        # definitions changed: re-enumerate
+        self.defs = enumerate_defs(self.modname, self.tree)
+        self.new = [d for d in self.defs if d.qual not in self.known]
+
     def _renest_moved(self):
         """A nested helper of the reference tree that now lives at module level under the same name ("hoist nested function") is put back
         into the function that used to own it (a copy at the top of its body); the module-level definition goes if nothing else uses it."""
@@ -1278,6 +1410,15 @@ def inline_package(trees: Dict[str, Tuple[ast.Module, bool]], known: Optional[Se
         pkg[name] = ModuleInliner(name, tree, known, pkg, is_pkg)
     log: List[str] = []
     try:
+        templates = load_templates()
+        for m in pkg.values():
+            m._inline_new_constants()
+        for m in pkg.values():
+            m._outline_vanished(templates)
+        for m in pkg.values():
+            # trees may have been rewritten by another module's outlining: refresh
+            m.defs = enumerate_defs(m.modname, m.tree)
+            m.new = [d for d in m.defs if d.qual not in m.known]
         for m in pkg.values():
             m.run()
         for m in pkg.values():
